@@ -234,3 +234,55 @@ Proof.
   rewrite (reset_point_forgets f (NDo e s)); [reflexivity|].
   cbn [is_reset_point]. apply negb_true_iff. apply Z.eqb_neq. intros E. apply H. symmetry. exact E.
 Qed.
+
+(* ---- one filter per client: the expected observation meets the oracle ---- *)
+
+Lemma ziota_lower a n x : In x (ziota a n) -> a <= x.
+Proof.
+  revert a. induction n as [|n IH]; intros a H; [destruct H|].
+  destruct H as [<-|H]; [lia|]. specialize (IH (a + 1) H). lia.
+Qed.
+
+Lemma ziota_nodup a n : znodup (ziota a n) = true.
+Proof.
+  revert a. induction n as [|n IH]; intros a; [reflexivity|].
+  cbn [ziota znodup]. rewrite IH, andb_true_r. apply negb_true_iff.
+  destruct (existsb (Z.eqb a) (ziota (a + 1) n)) eqn:E; [|reflexivity].
+  apply existsb_exists in E. destruct E as [x [Hx Hex]]. apply Z.eqb_eq in Hex. subst x.
+  apply ziota_lower in Hx. lia.
+Qed.
+
+Lemma ziota_length a n : length (ziota a n) = n.
+Proof. revert a. induction n as [|n IH]; intros a; [reflexivity|]. cbn. rewrite IH. reflexivity. Qed.
+
+Lemma ziota_nonneg a n : 0 <= a -> forallb (fun i => 0 <=? i) (ziota a n) = true.
+Proof.
+  revert a. induction n as [|n IH]; intros a H; [reflexivity|].
+  cbn [ziota forallb]. rewrite IH by lia. destruct (Z.leb_spec 0 a); [reflexivity|lia].
+Qed.
+
+Lemma repeat_all_one n : forallb (fun t => t =? 1) (repeat 1 n) = true.
+Proof. induction n as [|n IH]; [reflexivity|]. cbn. exact IH. Qed.
+
+Theorem filters_expected_ok kinds npeer :
+  let '(counts, types, ids) := svc_expected kinds npeer in
+  C17_filters_ok kinds npeer true counts types ids = true.
+Proof.
+  unfold svc_expected, C17_filters_ok. cbn [andb].
+  rewrite list_eqb_refl, repeat_length, Nat.eqb_refl, repeat_all_one, ziota_length, Nat.eqb_refl,
+    ziota_nonneg by lia. rewrite ziota_nodup. reflexivity.
+Qed.
+
+(* sharing is rejected: two clients with the same filter never pass *)
+Theorem filters_shared_rejected kinds npeer counts types pre x mid post :
+  C17_filters_ok kinds npeer true counts types (pre ++ x :: mid ++ x :: post) = false.
+Proof.
+  unfold C17_filters_ok. 
+  assert (H : znodup (pre ++ x :: mid ++ x :: post) = false).
+  { induction pre as [|p r IH]; cbn [app znodup].
+    - assert (E : existsb (Z.eqb x) (mid ++ x :: post) = true).
+      { apply existsb_exists. exists x. split; [apply in_or_app; right; left; reflexivity|apply Z.eqb_refl]. }
+      rewrite E. reflexivity.
+    - rewrite IH. apply andb_false_r. }
+  rewrite H. apply andb_false_r.
+Qed.
